@@ -1,5 +1,6 @@
 import WitnessVerif.Model.Bastion
 import WitnessVerif.Props.C04
+import WitnessVerif.Generated.Facts
 import WitnessVerif.Proofs.Frame
 /-
 C10 — the bastion add-checkpoint endpoint speaks the tlog-witness protocol.
@@ -144,5 +145,25 @@ theorem C10_200_body_cosigns_submitted (w : Cfg) (h : HCfg) (store : Store) (bod
         · rw [← h1]; exact hbody
         · have := hver s (by rw [hsigs]; exact List.mem_cons_self ..)
           rw [ht] at this; exact this
+
+end C10
+
+namespace C10
+open Wit Bastion
+
+/-- behind the connection wiring (16 KiB `MaxBytesHandler`): a body over the cap is answered 400 and `Update`
+    is not invoked, however the body is framed and whatever it contains; up to the cap the endpoint behaves
+    exactly as the handler alone (so every theorem above carries over) -/
+theorem C10_body_cap (cap : Nat) (w : Cfg) (h : HCfg) (store : Store) (body : Bytes) (hc : cap ≠ 0) :
+    (body.length > cap → serveConn cap w h store true body = ({ status := 400 }, none)) ∧
+    (body.length ≤ cap → serveConn cap w h store true body = serve w h store true body) := by
+  constructor
+  · intro hl; unfold serveConn; simp [hc, hl]
+  · intro hl; unfold serveConn
+    have : ¬ (cap ≠ 0 ∧ body.length > cap) := by omega
+    simp [this]
+
+/-- the cap regenerated from connectAndServe is the 16 KiB the protocol documents -/
+theorem C10_cap_is_16KiB : Facts.maxBodyBytes = 16 * 1024 := by decide
 
 end C10
